@@ -95,11 +95,11 @@ struct ilut {
             check_params(p, {"p", "tau", "damping", "solve"});
         }
 
-        void get(boost::property_tree::ptree &p, const std::string &path) const {
-            AMGCL_PARAMS_EXPORT_VALUE(p, path, p);
-            AMGCL_PARAMS_EXPORT_VALUE(p, path, tau);
-            AMGCL_PARAMS_EXPORT_VALUE(p, path, damping);
-            AMGCL_PARAMS_EXPORT_CHILD(p, path, solve);
+        void get(boost::property_tree::ptree &pt, const std::string &path) const {
+            AMGCL_PARAMS_EXPORT_VALUE(pt, path, p);
+            AMGCL_PARAMS_EXPORT_VALUE(pt, path, tau);
+            AMGCL_PARAMS_EXPORT_VALUE(pt, path, damping);
+            AMGCL_PARAMS_EXPORT_CHILD(pt, path, solve);
         }
 #endif
     } prm;
